@@ -85,7 +85,8 @@ Definition plans_of (cf : config) (e : env) : list (list call) :=
   end.
 
 (* nothing is decided by Go's scheduler: no answer of a step is due at the instant the context ends, no
-   two relay goroutines act at one instant *)
+   other relay's call returns at the instant of the first delivery, neither that nor the last relay's
+   giving up coincides with the end of the context *)
 Definition tie_free_t (cf : config) (e : env) (l : lats) (m : timed) : bool :=
   let e1 := apply_cuts e (t_cuts m) (e_deadline e - t_t0 m) in
   negb (steps_tie e l)
@@ -232,14 +233,9 @@ Definition unblind_calls_ok (c : case) : bool :=
            && Nat.eqb (count_events ev_sign_block (o_events obs)) 1
            && match expected_signed c with
               | Some sp =>
-                  forallb (fun call =>
-                    ureq_eqb (snd call) (unblind_request sp)
-                    (* a retry that starts after the submission may have lost its block: the
-                       collector clears the blinded container it reads *)
-                    || match o_submit obs with
-                       | Some (t, _) => (t <? fst call) && ureq_eqb (snd call) {| u_version := sp_version sp; u_conts := [] |}
-                       | None => false
-                       end) calls
+                  (* every call, also a retry made after the submission (the requests are built
+                     before the relay goroutines start) *)
+                  forallb (fun call => ureq_eqb (snd call) (unblind_request sp)) calls
               | None => false
               end))
      (indexed 0 (o_unblind obs)).
@@ -292,6 +288,50 @@ Definition some_call_answered (c : case) : bool :=
 
 Definition no_relay_no_submit_b (c : case) : bool :=
   negb (proposal_blinded c) || some_call_answered c || negb (is_some (o_submit (c_obs c))).
+
+(* 5b. ... and a full block that a relay DID return in time is submitted, without waiting for the other
+       relays: for every call that was seen made and whose scripted answer is a full block handed back
+       at [f], before the end of the context, something is submitted no later than [f] -- whatever the
+       other relays are doing then (still inside their call, hanging until the context ends, failing,
+       slow to give up).  With 4 (what is submitted was delivered by then) the submission is the
+       earliest full block, at the instant it came back.
+       No exception for another relay's call returning without a block at the very instant [f]: a
+       relay that has a block always hands it over (before the repair of unblindProposal every
+       returning call probed a semaphore with TryAcquire/Release, and the call that brought the
+       block could find it held by the other's probe and leave without handing the block over:
+       about 1 run in 2500-6000 of corpus/C05/block_and_failure_return_together.json). *)
+Definition call_returns (deadline : N) (r : relay) (k : nat) (st : N) : N :=
+  match scripted r k with
+  | UHang => N.max st deadline + scripted_lat r k
+  | _ => st + scripted_lat r k
+  end.
+
+(* every call seen made: (the instant it returned, its answer was a full block) *)
+Definition returned_calls (c : case) : list (N * bool) :=
+  flat_map (fun ic : nat * list (N * ureq) =>
+    let '(i, calls) := ic in
+    match nth_error (e_relays (c_env c)) i with
+    | None => []
+    | Some r => map (fun kc : nat * (N * ureq) =>
+                       (call_returns (e_deadline (c_env c)) r (fst kc) (fst (snd kc)), is_ok (scripted r (fst kc))))
+                    (indexed 0 calls)
+    end) (indexed 0 (o_unblind (c_obs c))).
+
+Definition submitted_by (c : case) (f : N) : bool :=
+  match o_submit (c_obs c) with Some (t, _) => t <=? f | None => false end.
+
+Definition unblinds_to (c : case) : bool :=
+  match e_proposal (c_env c) with
+  | POk p => p_blinded p && is_some (full_container (p_version p))
+  | PErr => false
+  end.
+
+Definition first_block_submitted (c : case) : bool :=
+  negb (unblinds_to c)
+  || forallb (fun fb : N * bool =>
+       let '(f, ok) := fb in
+       negb ok || negb (f <? e_deadline (c_env c)) || submitted_by c f)
+     (returned_calls c).
 
 (* 1b. a duty whose Prepare succeeded carries, when it is handed to Propose, the account the provider
        holds for ITS validator and the reveal that account gave when asked for ITS epoch -- whatever
@@ -356,7 +396,8 @@ Definition P_core (c : case) : bool :=
   && degrades_ok c
   && other_slot_refused c
   && unready_silent c
-  && prepared_duty_own c.
+  && prepared_duty_own c
+  && first_block_submitted c.
 
 (* ------------------------------------------------------------------------------------------- *)
 (* Time.  The clauses above are evaluated on the answers the providers were SEEN to give ([actual]: a
